@@ -6,7 +6,7 @@ from harness import graphs as G
 from harness import strategies as S
 from harness.core import Acc, HarnessError, Violation, lib, must, must_raise
 from harness.hyp import job_seed, run_property, scaled
-from props.gcommon import DTYPE_NAMES, compare_sets, pdag_codes, result_set, spoil, to_np
+from props.gcommon import DTYPE_NAMES, compare_sets, lib_debug, pdag_codes, result_set, spoil, to_np
 
 PROP = "C09"
 RULE = ("Every PDAG with acyclic directed part on p<=4 nodes (quick; 3,675 graphs) and p=5 (thorough; 765,664), plus "
@@ -217,6 +217,20 @@ def check(case):
             compare_sets(gs, n, E, "all_dags(maximally_orient(P))", "P=%s" % case["P"])
             lab.append("alldags")
         lab.append("has_extension")
+        if case.get("debug"):             # the tracing flag is a configuration: same answers with it
+            od = lib_debug(utils.maximally_orient, A)
+            if od is not None:
+                Md = np.asarray(must(od, "maximally_orient(debug=True)"))
+                if Md.shape != M.shape or G.rows_from_matrix(Md) != ug:
+                    raise Violation("debug_changes_result", "maximally_orient(%s, debug=True) = %s differs from the result without "
+                                    "the flag %s" % (case["P"], Md.astype(int).tolist(), M.astype(int).tolist()))
+            od = lib_debug(utils.pdag_to_dag, A)
+            if od is not None:
+                Dd = np.asarray(must(od, "pdag_to_dag(debug=True)"))
+                if Dd.shape != (p, p) or G.rows_from_matrix(Dd) not in E:
+                    raise Violation("debug_changes_result", "pdag_to_dag(%s, debug=True) = %s is not a consistent extension"
+                                    % (case["P"], Dd.astype(int).tolist()))
+            lab.append("debug_flag")
         spoil(D)
         spoil(M)
     if not (A == keep).all():
@@ -230,6 +244,8 @@ def _run_exh(acc, job):
             continue
         case = {"sub": "pdag_exh", "P": G.lists_from_rows(P), "dtype": (DTYPE_NAMES + ["weighted"])[code % 7], "salt": code % 5,
                 "alldags": job["p"] <= 4 or code % 53 == 0}
+        if code % 11 == 4:
+            case["debug"] = True
         try:
             lab = check(case)
             acc.record(case, lab, _nontrivial(case, lab), by_construction=True, sample=(code % 2999 == 9))
@@ -245,7 +261,7 @@ def _uniform_case(draw):
     if draw(st.integers(0, 2)) == 0:
         P = draw(S.embedded(draw(S.pdag(3, 6, max_undirected=8, weights=(2, 3, 3)))))
     return {"sub": "pdag_hyp", "P": P, "dtype": draw(st.sampled_from(DTYPE_NAMES + ["weighted"])), "salt": draw(st.integers(0, 7)),
-            "alldags": draw(st.integers(0, 5)) == 0}
+            "alldags": draw(st.integers(0, 5)) == 0, "debug": draw(st.integers(0, 7)) == 0}
 
 
 @st.composite
@@ -276,7 +292,7 @@ def _meek_case(draw):
         for (i, j) in chosen:          # orient i -> j as in the DAG (background knowledge)
             cp[j] &= ~(1 << i)
     return {"sub": "pdag_meek", "P": G.lists_from_rows(tuple(cp)), "dtype": draw(st.sampled_from(DTYPE_NAMES + ["weighted", "weighted"])),
-            "salt": draw(st.integers(0, 7)), "alldags": draw(st.integers(0, 5)) == 0}
+            "salt": draw(st.integers(0, 7)), "alldags": draw(st.integers(0, 5)) == 0, "debug": draw(st.integers(0, 5)) == 0}
 
 
 GADGETS = [(16, 16), (8, 32), (32, 8), (4, 64), (2, 3), (3, 5), (16, 32), (1, 1), (16, 15), (64, 4)]
